@@ -16,7 +16,12 @@ pub fn report(v: Violation) -> ! {
 
 pub fn quiet_panics() {
     static ONCE: std::sync::Once = std::sync::Once::new();
-    ONCE.call_once(|| std::panic::set_hook(Box::new(|_| {})));
+    ONCE.call_once(|| {
+        std::panic::set_hook(Box::new(|_| {}));
+        // like the property checks, the fuzz targets run with a logger enabled (code inside the library's log
+        // statements is part of what is being fuzzed)
+        vcheck::engine::install_logger();
+    });
 }
 
 pub fn stats() -> Stats {
